@@ -12,7 +12,7 @@ def main():
         sys.exit(0)
     try:
         mod = importlib.import_module(f"props.{pid.lower()}")
-        code = run.run_property(pid, mod.build, tier=a.tier)
+        code = run.run_property(pid, mod.build, tier=a.tier, fallback=getattr(mod, "fallback", None))
     except SystemExit: raise
     except BaseException:
         import traceback; traceback.print_exc()
